@@ -74,7 +74,7 @@ def strategy(tier):
 
 
 def matrix(tier):
-    hostile = ['a <b> & "c"', 'q"uote', "back\\", "<br/>", "&amp;", "{x|y}", "new\nline", "é漢\U0001F600", "]]>", "<TABLE>", "50%s", "%d%%"]
+    hostile = ['a <b> & "c"', 'q"uote', "back\\", "<br/>", "&amp;", "{x|y}", "new\nline", "é漢\U0001F600", "]]>", "<TABLE>", "50%s", "%d%%", "]", "]]", "[x]"]
     n = lambda l: {"ns": "http://a/", "local": l, "prefix": "ex", "as": "qn"}
     for i, h in enumerate(hostile):
         for oi in (0, 20, 45, 79, (i * 7) % 80):
@@ -112,6 +112,27 @@ def matrix(tier):
         yield {"profile": "dot", "ops": dup, "opts": oi, "cell": ["duplicates-in-bundle-empty-top", oi]}
         yield {"profile": "dot", "ops": dup + [["rec", 0, "specialization", None, {"specificEntity": {"name": n("report")}, "generalEntity": {"name": n("general")}}, [], "factory"]],
                "opts": oi, "cell": ["duplicates-in-bundle-anonymous-top", oi]}
+    for c in _time_only_cells():
+        yield c
+
+
+def _time_only_cells():
+    """relations whose ONLY non-reference attribute is their time (and element annotations likewise: activity times)"""
+    n = lambda l: {"ns": "http://a/", "local": l, "prefix": "ex", "as": "qn"}
+    for kind in ("generation", "usage", "start", "end", "invalidation"):
+        fargs = spec.formal_args(kind)
+        for oi, o in enumerate(OPTS):
+            if not o["show_relation_attributes"] or o["direction"] not in ("BT", "LR"):
+                continue
+            for full in (False, True):
+                formal = {}
+                for i, (a, t) in enumerate(fargs):
+                    if t == "time":
+                        formal[a] = {"t": "2012-03-02T10:30:00", "as": "dt"}
+                    elif i < 2 or full:
+                        formal[a] = {"name": n("x%d" % i)}
+                ops = [["ns", 0, "ex", "http://a/"], ["rec", 0, kind, None, formal, [], "factory"]]
+                yield {"profile": "dot", "ops": ops, "opts": oi, "cell": ["time-only", kind, oi, full]}
 
 
 def _it(b, **kw):
